@@ -38,6 +38,9 @@ ArgsQuery == << A("qs", "query", "one", FALSE, FALSE), A("qo", "query", "opt", T
                 A("qset", "query", "many", FALSE, FALSE), A("qe", "query", "opt", TRUE, TRUE), A("qa", "query", "opt", TRUE, FALSE),
                 A("qoa", "query", "opt", FALSE, FALSE), A("qb", "query", "many", TRUE, FALSE) >>
 ArgsAuthCookie == << A("auth", "auth", "one", TRUE, FALSE) >>
+(* the generated ctxCall endpoint (request context): strings only - nothing is unparsable, but a header value can fail to be text; *)
+(* hoa is an ALIAS of optional<string> (FromDecoder around the optional decoder)                                                    *)
+ArgsCtx == << A("p", "path", "one", FALSE, FALSE), A("hoa", "header", "opt", FALSE, FALSE), A("q", "query", "opt", FALSE, FALSE) >>
 ArgsOptBody == << A("body", "body", "opt", TRUE, FALSE) >>
 ArgsSafeBody == << A("body", "body", "one", TRUE, TRUE), A("n", "query", "one", TRUE, FALSE) >>
 
